@@ -299,35 +299,54 @@ var genSamAtBufferBoundary bool
 // set by a generator around a call of genSam: always (or never) the case at scale
 var genSamScale int // 0: one case in 20, 1: always, -1: never
 
-// genSamAtScale: a reference of a few thousand bases with a deletion and a skipped region of more than a thousand bases
-// (not a power of two), an insertion of more than 512 bases (or three of 250), and a query cut into 33-70 consecutive
-// records - sizes beyond any fixed run, pre-allocated row, or machine-word mask of records
+// genSamAtScale: sizes beyond any fixed run, pre-allocated row, or machine-word mask of records. One of: a reference of
+// some 1200 bases with a deletion and a skipped region of more than 1024 bases (not a power of two); an insertion of more
+// than 512 bases (or three of 250) on a short reference; a query cut into 33-70 consecutive records
 func genSamAtScale(r *RNG, maxIns int) samCase {
-	L := r.PickInt([]int{1500, 2600, 3300, 5000})
+	variant := r.PickStr([]string{"longops", "longins", "manyrecs"})
+	if maxIns < 2 && variant == "longins" {
+		variant = "longops"
+	}
+	L := 0
+	switch variant {
+	case "longops":
+		L = r.Range(1150, 1400)
+	case "longins":
+		L = r.Range(150, 400)
+	}
+	nrec, w := r.Range(33, 70), r.Range(4, 10)
+	if variant == "manyrecs" {
+		L = nrec * w // the records cover the reference from its first base to its last ...
+		if r.Chance(1, 3) {
+			L += r.Range(1, 20) // ... or stop short of the end
+		}
+	}
 	rname := "ref" + fmt.Sprint(r.Intn(9))
 	ref := randSeq(r, L, symACGT, false)
-	sc := samCase{ref: ref, rname: rname, tags: map[string]bool{"at-scale": true}}
-	tm := func() string { return mutateSeq(r, ref, symACGT, 1, 200, false) }
-	kinds := []string{"longdel", "longskip", "manyrecs", "plain"}
-	if maxIns >= 2 {
-		kinds = append(kinds, "longins", "threeins")
+	sc := samCase{ref: ref, rname: rname, tags: map[string]bool{"at-scale-" + variant: true}}
+	tm := func() string { return mutateSeq(r, ref, symACGT, 1, 40, false) }
+	var kinds []string
+	switch variant {
+	case "longops":
+		kinds = []string{"longdel", "longskip", "plain"}
+	case "longins":
+		kinds = []string{"longins", "threeins", "plain"}
+	default:
+		kinds = []string{"manyrecs", "plain"}
 	}
 	for i := len(kinds) - 1; i > 0; i-- {
 		j := r.Intn(i + 1)
 		kinds[i], kinds[j] = kinds[j], kinds[i]
 	}
-	for qi, kind := range kinds[:r.Range(3, len(kinds))] {
+	for qi, kind := range kinds {
 		name := fmt.Sprintf("q%d", qi)
 		tmpl := tm()
 		switch kind {
 		case "longdel", "longskip":
-			b := r.PickInt([]int{1025, 1100, 1300, 2047, 2049, 3000})
-			for b > L-80 {
-				b = b/2 + 13
-			}
-			a := r.Range(20, L-b-40)
-			st := r.Range(0, L-b-a-20)
-			cN := r.Range(10, L-st-a-b)
+			b := r.PickInt([]int{1025, 1026, 1040, 1100})
+			a := r.Range(5, L-b-10)
+			st := r.Range(0, L-b-a-5)
+			cN := r.Range(3, L-st-a-b)
 			op := "D"
 			if kind == "longskip" {
 				op = "N"
@@ -338,17 +357,12 @@ func genSamAtScale(r *RNG, maxIns int) samCase {
 			a := r.Range(20, L/2)
 			sc.recs = append(sc.recs, samRec{name: name, flag: 0, pos: 1, cigar: fmt.Sprintf("%dM%dI%dM", a, k, L-a), seq: tmpl[:a] + randSeq(r, k, symACGT, false) + tmpl[a:]})
 		case "threeins":
-			a := r.Range(20, L/4)
+			a := r.Range(10, L/4)
 			q := L / 4
 			sc.recs = append(sc.recs, samRec{name: name, flag: 0, pos: 1, cigar: fmt.Sprintf("%dM250I%dM250I%dM250I%dM", a, q, q, L-a-2*q),
 				seq: tmpl[:a] + randSeq(r, 250, symACGT, false) + tmpl[a:a+q] + randSeq(r, 250, symACGT, false) + tmpl[a+q:a+2*q] + randSeq(r, 250, symACGT, false) + tmpl[a+2*q:]})
 		case "manyrecs":
-			n := r.Range(33, 70)
-			w := L / n
-			if w > 30 {
-				w = r.Range(12, 30)
-			}
-			for k := 0; k < n; k++ {
+			for k := 0; k < nrec; k++ {
 				fl := 2048
 				if k == 0 {
 					fl = 0
